@@ -7,6 +7,20 @@ TB_COMMON = [
 ]
 
 HARNESSES = {
+    "pb": {
+        "module": "spanner_prober", "pkg": "prober", "test": "TestVerifProber",
+        "files": ["harness/spanner_prober/prober/zz_verif_pb_test.go"],
+        "corpus_glob": "*.ops", "corpus_dirs": [],
+        "episode_start": r"^pb ",
+        "tiers": {"quick": {"episodes": 2000}, "thorough": {"episodes": 60000, "seeds": 8}},
+    },
+    "pbflags": {
+        "module": "spanner_prober", "pkg": ".", "test": "TestVerifFlags",
+        "files": ["harness/spanner_prober/main/zz_verif_flags_test.go"],
+        "corpus_glob": "*.ops", "corpus_dirs": [],
+        "episode_start": r"^pb ",
+        "tiers": {"quick": {"episodes": 3000}, "thorough": {"episodes": 100000, "seeds": 8}},
+    },
     "kp": {
         "module": "grpcgcp", "pkg": ".", "test": "TestVerifKeyPath",
         "files": ["harness/grpcgcp/zz_verif_kp_test.go"],
@@ -69,7 +83,23 @@ KP_TB = TB_COMMON + [
     "non-ASCII locators are outside the model (strings.Title's Unicode title-casing)",
 ]
 
+PB_TB = TB_COMMON + [
+    "tools/extract: gfeT4T7prefix, serverTimingKey, the retry delays, the 1.5 factor, the probe-type table and the flag regexes with the flags they are applied to are regenerated from the Go sources",
+    "floating point: the backoff theorems hold for every arithmetic satisfying `Laws` (total order, monotone conversions, exact integers up to 2^53, x*1.5 >= x for x >= 0) - IEEE-754 binary64 round-to-nearest is assumed to satisfy them; the executable F53 model (53-bit round-to-nearest-even dyadics) is compared bit-for-bit with Go's float64 on every run",
+    "modelled, not verified: strconv.ParseInt(_,10,64), strings.HasPrefix/TrimPrefix, regexp for the fragment ^[class]*$, fmt.Sprintf(%s), crypto/sha256 (the payload hash is re-computed by the harness with sha256.Sum256)",
+    "ASCII inputs (Go strings are bytes; the model uses characters)",
+]
+
 PROPS = {
+    "C18": {"harnesses": ["pb", "pbflags"], "lake_targets": ["GcpVerif"],
+            "theorems": [("GcpVerif.Proofs.Prober", "GcpVerif.Prober." + n) for n in
+                         ["backoff_ge_base", "backoff_le_max", "backoff_mono_retries", "loop_succ", "t4t7_header_first",
+                          "t4t7_trailer_fallback", "t4t7_absent", "t4t7_first_entry", "t4t7_no_entry", "wrap64_exact",
+                          "databaseURI_segments", "instanceURI_segments", "no_slash_of_match", "generated_regexes_exclude_slash",
+                          "generated_regexes_cover", "accepted_probe_type_parses"]],
+            "leanchecker": ["GcpVerif.Proofs.Prober"],
+            "trusted_base": PB_TB,
+            "assumptions": ["backoff: 0 <= base <= max <= 2^53 ns (known findings K3/K4 outside)", "t4t7 value exact for |ms| <= 9223372036854 (K5)"]},
     "C11": {"harnesses": ["kp"], "lake_targets": ["GcpVerif"],
             "theorems": [("GcpVerif.Proofs.KeyPath", "GcpVerif.KeyPath." + n) for n in
                          ["keys_eq_follow", "getAffinityKeys_eq_follow", "loopKeys_spec", "nil_is_error", "nil_nested_is_error",
